@@ -176,7 +176,9 @@ def etype(t, alt):
 
 def enc_compact(v, alt=None):
     c = v[0]
-    if c == "b": return b"\x01" if v[1] else b"\x02"
+    if c == "b":
+        # element position: false is 2 (the Apache libraries) or 0 (the protocol document's text)
+        return b"\x01" if v[1] else (b"\x00" if alt and alt.random() < 0.35 else b"\x02")
     if c == "y": return struct.pack(">b", v[1])
     if c == "h": return uvarint(zigzag(v[1], 16))
     if c == "i": return uvarint(zigzag(v[1], 32))
